@@ -128,6 +128,13 @@ MergeRan == "merger" \in DOMAIN hinfo /\ hinfo.merger
 \* ascending key order; an entry that is nil, foreign or garbage is not
 \* explained by it.
 OnceCommitted(b, k, v) == <<b, k, v>> \in ever
+\* ... and what it cannot explain: Merge rewrites live values only, so the
+\* finding brings superseded *values* back, it never makes a key disappear.  A
+\* key that was put (without TTL) and never deleted since the start of the
+\* history must be found; `ever` carries the marker Gone for every key that a
+\* committed transaction deleted or wrote with a TTL.
+Gone == "<deleted>"
+MustExist(b, k) == (\E t \in ever : t[1] = b /\ t[2] = k) /\ ~OnceCommitted(b, k, Gone)
 \* Known finding F-C17-3: in HintKeyAndRAMIdxMode a reader fetches values from
 \* the data files; Merge removes a file under it (it holds no lock), the
 \* reader re-creates it empty and returns a nil entry in its place.
@@ -135,8 +142,15 @@ F_MergeNil == "F-C17-3"
 NilEntryOK == F_MergeNil \in Dev /\ "mode" \in DOMAIN hinfo /\ hinfo.mode = 1
 IsNilEntry(x) == x.v = "<nil entry>"
 WeakReadOK(a) ==
-  CASE a.op = "get" -> a.err \/ OnceCommitted(a.b, a.k, a.v) \/ (NilEntryOK /\ a.v = "<nil entry>")
-    [] a.op \in {"getall", "range", "pscan", "psscan"} ->
+  CASE a.op = "get" -> (a.err /\ ~MustExist(a.b, a.k)) \/ (~a.err /\ OnceCommitted(a.b, a.k, a.v)) \/ (~a.err /\ NilEntryOK /\ a.v = "<nil entry>")
+    [] a.op = "getall" ->
+         \/ a.err /\ \A t \in ever : t[1] = a.b => ~MustExist(a.b, t[2])
+         \/ ~a.err /\ LET real == SelectSeq(a.res, LAMBDA x : ~IsNilEntry(x)) IN
+                  /\ (Len(real) = Len(a.res) \/ NilEntryOK)
+                  /\ \A i \in 1..Len(real) : OnceCommitted(a.b, real[i].k, real[i].v)
+                  /\ \A i \in 1..(Len(real) - 1) : LexLess(real[i].k, real[i + 1].k)
+                  /\ Len(real) = Len(a.res) => \A t \in ever : (t[1] = a.b /\ MustExist(a.b, t[2])) => \E i \in 1..Len(real) : real[i].k = t[2]
+    [] a.op \in {"range", "pscan", "psscan"} ->
          a.err \/ LET real == SelectSeq(a.res, LAMBDA x : ~IsNilEntry(x)) IN
                   /\ (Len(real) = Len(a.res) \/ NilEntryOK)
                   /\ \A i \in 1..Len(real) : OnceCommitted(a.b, real[i].k, real[i].v)
@@ -232,7 +246,9 @@ TraceNext ==
   /\ div' = IF Ev.op = "reset" THEN FALSE
             ELSE IF Ev.op = "close" /\ status = "open" THEN ~SameObs(Replay(log), mem, Ev.t0) ELSE div
   /\ pend' = IF Ev.op \in {"begin", "reset"} THEN {}
-             ELSE IF Ev.op = "put" /\ ~Ev.err /\ ~IsFin THEN pend \cup {<<Ev.b, Ev.k, Ev.v>>} ELSE pend
+             ELSE IF Ev.op = "put" /\ ~Ev.err /\ ~IsFin
+                  THEN pend \cup {<<Ev.b, Ev.k, Ev.v>>} \cup (IF "ttl" \in DOMAIN Ev /\ Ev.ttl # 0 THEN {<<Ev.b, Ev.k, Gone>>} ELSE {})
+             ELSE IF Ev.op = "del" /\ ~Ev.err /\ ~IsFin THEN pend \cup {<<Ev.b, Ev.k, Gone>>} ELSE pend
   /\ ever' = IF Ev.op = "reset" THEN {}
              ELSE IF Ev.op = "commit" /\ ~Ev.err /\ ~IsFin THEN ever \cup pend ELSE ever
 
